@@ -21,7 +21,7 @@ RULE = ('every command list of length 0-3 (thorough 0-4) over {ok, exit 1, exit 
         '{t, "a b", e-acute, "a/b", ".", "..", "x\\0y", ""}; pairs of tasks with different names sharing one output root; each task is run by '
         'Scheduler.schedule() with one worker under a watchdog. Oracle: DONE iff every command ran and exited 0; nothing runs after the '
         'first failure (markers); a command that cannot start gives a FAILED task and a normal return of schedule(); return_codes = codes '
-        'of the commands run; stdout file = concatenated oK, stderr file = echoed command lines and eK in order; invalid names give FAILED; '
+        'of the commands run; stdout file = concatenated oK, stderr file = the eK in order (echoed command lines ignored); invalid names give FAILED; '
         'two tasks never share a directory; non-trivial = lists with at least one failing command')
 ASSUMPTIONS = ['/bin/sh is available; exit statuses as returned by subprocess.call (negative = signal)',
                'one worker thread, default schedule (the interleavings of the scheduler are C01-C03\'s business)',
@@ -138,6 +138,10 @@ def job_lists(first):
                         continue
                     with open(path, encoding='utf-8') as fil:
                         got = fil.read()
+                    if key == 'stderr':
+                        # the echo of each command line ('$ ...') is a courtesy of run(): only what the commands wrote is judged
+                        got = ''.join(ln for ln in got.splitlines(keepends=True) if not ln.startswith('$ '))
+                        exp = ''.join(ln for ln in exp.splitlines(keepends=True) if not ln.startswith('$ '))
                     if got != exp:
                         rep.violate(f'C19|capture|{key}|{tag}', f'commands {kinds}: {key} holds {got!r}, expected {exp!r}', case, size=len(kinds))
                     if os.path.dirname(os.path.realpath(path)) != os.path.realpath(tdir):
